@@ -33,6 +33,10 @@ PROGRAMS = [
     (["10 DIM A$,B$(2),N(3)", "20 A$=\"X\":B$(1)=A$"], {"default_str_storage": 80}),
     (["10 A$=\"Y\":B$(1)=A$:N(1)=2"], {"default_str_storage": 80, "initialize_vars": True}),
     (["10 A$=HEX$(X)+STR$(Y)+HEX$(Z)+STR$(W):PRINT A$;X;Y"], {"default_str_storage": 80}),
+    (["10 DATA &H10,,3,&HFF,1", "20 READ A,B,C,D,E"], {}),
+    (["10 DATA 16,,7,255,1.0", "20 READ A,B,C,D,E"], {}),
+    (["10 HBUFF 1,100:HGET(1,2)-(3,4),1"], {"output_dependencies": True, "procname": "prog"}),
+    (["10 HBUFF 2,50"], {}),
 ]
 DECODES = [("hrstoppm", [], "monalisa.hrs"), ("maxtoppm", ["-br"], "eye4.max"), ("mgetoppm", [], "dragon1.mge"), ("rattoppm", [], "watrfall.rat"),
            ("cm3toppm", [], "clip1.cm3"), ("veftopng", [], "trekies.vef"), ("pixtopgm", [], "sue.pix"), ("maxtoppm", ["-newsroom"], "shamrock.art")]
